@@ -10,6 +10,8 @@ def run(res, args):
     res.assumptions = ["renderings are obtained from FieldListValue.CommaString/String through the register API (the value type cannot be constructed otherwise), 65 times each",
                        "a field-list type no product's register list uses (SolarOffReasons on the current tree) can only be exercised through its factory"]
     ok = tables.prepare(res, "C15", THEOREMS)
+    from lib import apigen
+    apigen.api_obligations(res, "C15")
     try:
         common.build_ocaml()
     except Broken as b:
